@@ -26,7 +26,8 @@ int main(int argc, char **argv){
   int d = g.dims, outs = g.outputs;
   TasmanianSparseGrid grid; makeGrid(grid, g);
   SymModel model(outs, 1000, -1.0, 1.0, g.family != "wavelet");
-  bool zeroed = false;   // after mergeRefinement the documented state is "all values zero"
+  bool zeroed = false;   // true right after a mergeRefinement (until values are supplied again): the surrogate must be zero
+  bool all_zero = false; // no symbolic value has been supplied since the last merge
   std::vector<double> probe; for (int p=0;p<2;p++) for (int j=0;j<d;j++){ double lo = g.transform ? g.ta[j] : (g.family == "fourier" ? 0.0 : -1.0), hi = g.transform ? g.tb[j] : 1.0; probe.push_back(lo + (0.31 + 0.27 * p + 0.05 * j) * (hi - lo)); }
   std::vector<std::string> steps; { std::stringstream ss(ops); std::string it; steps.push_back("L"); while (std::getline(ss, it, ',')) if (!it.empty()) steps.push_back(it); }
   int step_no = 0;
@@ -51,7 +52,7 @@ int main(int argc, char **argv){
       size_t take = std::min<size_t>(cp.size(), 3); std::vector<double> x; for (size_t i=0;i<take;i++) x.insert(x.end(), cp[i].begin(), cp[i].end());
       if (take) grid.loadConstructedPoints(x, model.values(x, d));
       grid.finishConstruction();
-      zeroed = false;
+      zeroed = false; if (take) all_zero = false;
       Snapshot after = snap(grid, probe);
       bool kept = true; for (auto &p : before.loaded) if (std::find(after.loaded.begin(), after.loaded.end(), p) == after.loaded.end()) kept = false;
       fpsym_check(kept, (tag + "construction never removes a loaded point").c_str());
@@ -65,7 +66,7 @@ int main(int argc, char **argv){
     } else if (op == "L"){
       if (grid.getNumNeeded() > 0){ grid.loadNeededValues(model.values(grid.getNeededPoints(), d)); }
       else { model.renew(); model.next_id = 3000 + 500 * step_no; grid.loadNeededValues(model.values(grid.getLoadedPoints(), d)); }
-      zeroed = false;
+      zeroed = false; all_zero = false;
       Snapshot after = snap(grid, probe);
       // exactly the needed points became loaded, none was removed
       fpsym_check(after.needed.empty(), (tag + "no needed points remain after a load").c_str());
@@ -129,7 +130,8 @@ int main(int argc, char **argv){
       } else if (op == "Ud"){ if (g.family == "localp" || g.family == "wavelet"){ fpsym_finish(); return 0; } grid.updateGrid(g.depth, IO::getDepthTypeString(g.type), g.aw, g.ll);
       } else if (op == "U"){ if (g.family == "localp" || g.family == "wavelet"){ fpsym_finish(); return 0; } grid.updateGrid(g.depth + 1, IO::getDepthTypeString(g.type), g.aw, g.ll);
       } else if (op == "C"){ grid.clearRefinement();
-      } else if (op == "M"){ bool had_needed = grid.getNumNeeded() > 0; grid.mergeRefinement(); if (had_needed) zeroed = true; is_refine = !had_needed;   // without needed points the merge is a no-op
+      } else if (op == "M"){ bool had_needed = grid.getNumNeeded() > 0; grid.mergeRefinement(); is_refine = !had_needed;   // without needed points the merge is a no-op
+        if (had_needed){ zeroed = true; all_zero = true; model.table.clear(); for (auto &p : split(grid.getLoadedPoints(), d)) model.table[p] = std::vector<double>(outs, 0.0); }   // documented: every value is zero now (the model follows)
       } else { fprintf(stderr, "bad op %s\n", op.c_str()); return 9; }
       Snapshot after = snap(grid, probe);
       if (is_refine){
@@ -152,12 +154,16 @@ int main(int argc, char **argv){
     if (zeroed) for (size_t i=0;i<now.probe.size();i++) fpsym_eq(now.probe[i], 0.0, 1.0, (tag + "after mergeRefinement the surrogate is zero as well (its coefficients belong to the zero values)").c_str());
     // every value is attached to the coordinates it was supplied for
     for (size_t i=0;i<now.loaded.size();i++){
-      if (zeroed){ for (int k=0;k<outs;k++) fpsym_eq(now.vals[i * outs + k], 0.0, 1.0, (tag + "after mergeRefinement all values are zero").c_str()); continue; }
       const std::vector<double> &want = model.at(now.loaded[i]);
       for (int k=0;k<outs;k++) fpsym_ident(now.vals[i * outs + k], want[k], (tag + "stored value is the one supplied for these coordinates").c_str());
     }
     step_no++;
   }
-  if (model.symbolic && grid.getNumLoaded() > 0 && !zeroed) fpsym_nonconst(grid.getLoadedValues()[0], "witness: stored values are symbolic");
+  if (model.symbolic && grid.getNumLoaded() > 0 && !all_zero){
+    // a stored value that was supplied after the last merge (values zeroed by a merge are constants)
+    std::vector<Pt> lp = split(grid.getLoadedPoints(), d); const double *v = grid.getLoadedValues(); int pick = -1;
+    for (size_t i=0;i<lp.size() && pick < 0;i++){ auto it = model.first_id.find(lp[i]); auto t = model.table.find(lp[i]); if (it != model.first_id.end() && t != model.table.end() && !(t->second == std::vector<double>(outs, 0.0))) pick = (int) i; }
+    if (pick >= 0) fpsym_nonconst(v[(size_t) pick * outs], "witness: stored values are symbolic");
+  }
   fpsym_finish(); return 0;
 }
